@@ -10,7 +10,9 @@ ASSUMPTIONS = ["a caller may retry after a transient error (retry harness); the 
 
 def run(ctx):
     C20_text.run_text_reader(ctx)
-    for name in ("C20_bin", "C20_de"):
+    # >>> a_c20 (wave 4): + C20_ops = every reader operation under faults, error accessors, typed all-optional targets
+    for name in ("C20_bin", "C20_de", "C20_ops"):
+    # <<< a_c20
         try:
             m = __import__("props." + name, fromlist=["x"])
         except ImportError:
